@@ -210,8 +210,9 @@ C03_NodeVersions ==
     /\ \A v \in versions : MaxVer(saved[v]) <= v
 
 \* the code's read paths compute the ordered-map answers on every reachable tree
+\* (stated for the working tree: every saved tree was the working tree when it was saved)
 C03_ReadPathsAreTheMap ==
-    \A t \in AllTrees :
+    \A t \in {working} :
         LET m == MapOf(t) IN
         /\ \A k \in KeyS : TreeHas(t, k) = MapHas(m, k) /\ TreeGet(t, k) = MapGet(m, k)
         /\ \A i \in -1..NK : TreeByIndex(t, i) = MapByIndex(m, i)
